@@ -20,7 +20,7 @@ func scansSourceCache(e *Eng, fn *ssa.Function) bool {
 
 func init() {
 	propInfos["C03"] = &propInfo{
-		Explanation: "Decides the inhibitor's structure: (1) the inhibitor mute stage precedes delivery and passes an alert iff not muted; (2) every slurped and received alert is offered to every rule, cached as a source iff it matches the rule's source matchers, and indexed after a successful cache write; loading is signalled only after the slurp; (3) Mutes can answer true only for a rule whose target matchers match, asks hasEqual with 'two-sided' = the alert also matches the source side, records the inhibiting fingerprint in the marker on every exit; (4) one key function (the values of exactly the rule's equal labels, missing = empty) is used to index sources and to look up targets; (5) a source found resolved at the query's clock is not used; (6) a two-sided target is not inhibited by a two-sided source; (7) completeness of the negative verdict: the rule is existential over ALL firing sources with the same equal-label values while the index holds ONE fingerprint per value, so after rejecting the indexed candidate the lookup must scan the cached sources, or the index must be re-elected on every event that can invalidate it (self-update, GC); (8) updateIndex's takeover table; (9) the source cache only forgets resolved alerts and hands exactly those to the index GC.",
+		Explanation: "Decides the inhibitor's structure: (1) the inhibitor mute stage precedes delivery and passes an alert iff not muted; (2) every slurped and received alert is offered to every rule, cached as a source iff it matches the rule's source matchers, and indexed after a successful cache write; loading is signalled only after the slurp; (3) Mutes can answer true only for a rule whose target matchers match, asks hasEqual with 'two-sided' = the alert also matches the source side, records the inhibiting fingerprint in the marker on every exit; (4) one key function (the values of exactly the rule's equal labels, missing = empty) is used to index sources and to look up targets; (5) a source found resolved at the query's clock is not used; (6) a two-sided target is not inhibited by a two-sided source; (7) completeness of the negative verdict: the rule is existential over ALL firing sources with the same equal-label values while the index holds ONE fingerprint per value, so after rejecting the indexed candidate the lookup must scan the cached sources, or the index must be re-elected on every event that can invalidate it (self-update, GC); (8) updateIndex's takeover table; (9) the source cache only forgets resolved alerts and hands exactly those to the index GC; the inhibitor is fed what the store holds: the provider hands every stored alert, in its stored (merged) version, to every subscriber (shared with C01).",
 		NotDecided:  "order-independence over whole histories (7 is the structural necessary condition; the inductive argument is not made).",
 	}
 
